@@ -8,6 +8,8 @@ Spec == Init /\ [][Next]_e
 
 \* M |= S : everything the folder evaluates is a closed literal expression
 GateSound == \A v \in Visit(e) : \A x \in v[2] : Closed(x)
+\* ... also the second time, when it evaluates the text of the value it computed
+TextGateSound == \A c \in ResultClasses : MEvaluatesText(c) => TextClosed(c)
 \* and it evaluates something only where S allows an evaluation at all
 EvalOnlyIfAllowed == (\E v \in Visit(e) : v[2] # {}) => HasClosedBin(e)
 EmitCase == PrintT(ToJson([e |-> e, may_eval |-> HasClosedBin(e), m_evals |-> (\E v \in Visit(e) : v[2] # {})]))
